@@ -141,6 +141,7 @@ class Rig:
 
     def __init__(self, kind, wlog, bs, script=None, ptype=0, own=0):
         self.ptype = ptype
+        self.msgs = []                    # (object handed to tx(), its bytes at that moment)
         # own=1: the caller supplies the buffers (Client(txes=..., rxbs=...), as TcpClientStack and the http layer do)
         supplied = dict(txes=deque(), rxbs=bytearray()) if own and kind in CLIENTS else {}
         self.supplied = supplied
@@ -209,8 +210,14 @@ class Rig:
         t, name = self.t, op[0]
         if name == "tx":
             data = D.unhx(op[1])
-            # tx() is handed bytes, a bytearray or a memoryview of the same bytes
-            t.tx(data if self.ptype == 0 else bytearray(data) if self.ptype == 1 else memoryview(data))
+            # tx() is handed bytes, a bytearray or a memoryview of the same bytes; the caller keeps the object
+            obj = data if self.ptype == 0 else bytearray(data) if self.ptype == 1 else memoryview(data)
+            self.msgs.append((obj, data))
+            t.tx(obj)
+        elif name == "txagain":
+            # the very same message object is queued once more (it may still be in the deque)
+            if self.msgs:
+                t.tx(self.msgs[op[1] % len(self.msgs)][0])
         elif name == "feedtx":
             self.script.sends.extend(send_item(self.kind, x) for x in op[1])
         elif name == "feedrx":
@@ -249,7 +256,9 @@ class CHECK(core.Check):
             "Non-trivial = at least one byte went through the double and some service call ended with data still "
             "queued (partial send / would-block / loss) or delivered a chunk; distinct by the whole case. Clients are "
             "built with caller-supplied txes / rxbs on half of the cases and every buffer is observed through the reference "
-            "its owner holds (identity of .rxbs / .txes is part of the compared state); every interleaving of <= 4 (quick) / "
+            "its owner holds (identity of .rxbs / .txes is part of the compared state); the caller keeps every message "
+            "object it handed to tx() (bytes / bytearray / memoryview), queues the same object again (`txagain`) and "
+            "re-reads all of them after every operation - they must be unchanged; every interleaving of <= 4 (quick) / "
             "5 (thorough) arrivals, receives, clearRxbs and catRxbs is enumerated. The exhaustive transmit cases and 30% of "
             "the random ones end with a drain tail (the socket accepts everything, one service call per answer fed): the "
             "deque must be empty afterwards unless the transport was cut off / disconnected / raised. About 2% of the "
@@ -312,6 +321,18 @@ class CHECK(core.Check):
                         ptype = 1        # the profuse console message calls .decode() on the payload: no memoryview there
                     yield {"kind": kind, "wlog": 1, "bs": 8, "verb": verb, "ptype": ptype, "own": (i // 7) % 2,
                            "drain": 1, "ops": ops}
+        # the same message object queued twice (and once more after a service call), partial sends at every cut
+        for mlen in (1, 2, 3):
+            m = bytes(range(1, mlen + 1))
+            for ln in range(1, (4 if tier == "thorough" else 3) + 1):
+                for seq in itertools.product(["a0", "a1", "a2", "a3", "wb:0"], repeat=ln):
+                    kind = KINDS[i % len(KINDS)]
+                    i += 1
+                    nd = ln + 5
+                    ops = ([["tx", D.hx(m)], ["txagain", 0], ["feedtx", list(seq)]] + [["stx"]] * ln + [["txagain", 0]] +
+                           [["feedtx", ["a9"] * nd]] + [["stx"]] * nd)
+                    yield {"kind": kind, "wlog": i % 2, "bs": 8, "verb": i % 5, "ptype": (i // 6) % 3 if i % 5 != 4 else 1,
+                           "own": (i // 3) % 2, "drain": 1, "ops": ops}
         # receive side: every interleaving of arrivals, receives, clearRxbs and catRxbs, on buffers the caller supplied
         # (clients) or holds a reference to (incomers)
         ralpha = [["feedrx", ["d01"]], ["feedrx", ["d0203", "d04"]], ["srx"], ["srx1"], ["clr"], ["cat"]]
@@ -394,7 +415,9 @@ class CHECK(core.Check):
             ops = []
             for _ in range(nops):
                 x = rng.random()
-                if x < 0.25:
+                if x < 0.05:
+                    ops.append(["txagain", rng.randrange(8)])
+                elif x < 0.25:
                     ops.append(["tx", D.hx(msg())])
                 elif x < 0.45:
                     ops.append(["feedtx", [self._send_tok(rng, errs, maxlen) for _ in range(rng.randrange(1, 7))]])
@@ -416,7 +439,7 @@ class CHECK(core.Check):
                     ops.append(["stx"])
             drain = int(rng.random() < 0.3)
             if drain:     # progress: once the socket takes every byte offered, enough service calls empty the deque
-                nd = sum(len(op[1]) for op in ops if op[0] == "feedtx") + sum(1 for op in ops if op[0] == "tx") + 2
+                nd = sum(len(op[1]) for op in ops if op[0] == "feedtx") + sum(1 for op in ops if op[0] in ("tx", "txagain")) + 2
                 ops += [["feedtx", ["a100000"] * nd]] + [["stx"]] * nd
             verb = rng.randrange(5)
             ptype = rng.choice([0, 0, 1, 2]) if verb < 4 else rng.randrange(2)
@@ -427,9 +450,14 @@ class CHECK(core.Check):
     def requests(self, case):
         case = self.equiv(case)
         out = ["reset %s %d" % (case["kind"], 1 if case["wlog"] else 0)]
+        queued = []
         for op in case["ops"]:
             if op[0] == "tx":
+                queued.append(op[1])
                 out.append("tx " + op[1])
+            elif op[0] == "txagain":
+                # queueing the same object again is, for the model, queueing the same bytes again
+                out.append("tx " + queued[op[1] % len(queued)] if queued else "feedtx")
             elif op[0] in ("feedtx", "feedrx"):
                 out.append(" ".join([op[0]] + [tok_send(t) for t in op[1]]))
             elif op[0] == "live":
@@ -473,11 +501,16 @@ class CHECK(core.Check):
             line = "%s q=%s rx=%s cut=%d live=%d ds=%s dw=%s dr=%s dwr=%s id=%d" % (
                 status, show(list(txref), ","), D.hx(rxref), cut, int(bool(rig.live())),
                 D.hx(sc.sent[s0:]), dw, D.hx(sc.recvd[r0:]), dwr, int(t.rxbs is rxref and t.txes is txref))
+            # the caller's message objects must still read as they did when they were queued
+            changed = [str(i) for i, (obj, was) in enumerate(rig.msgs) if bytes(obj) != was]
+            line += " mut=" + (",".join(changed) or "-")
             if op is not None and op[0] == "cat" and status == "ok":
                 line += " ret=" + D.hx(rig.ret)
             return line
 
     def model_post(self, case, replies):
+        # in the model a queued message is a value: it cannot change under the caller (`mut=-`)
+        replies = [r.replace(" id=1", " id=1 mut=-", 1) if " id=1" in r else r for r in replies]
         return replies + ["e2e ok"] if case.get("real") else replies
 
     def impl(self, case):
@@ -580,9 +613,10 @@ class CHECK(core.Check):
             fixed = []
             for ln, op in zip(lines[1:], eops):
                 if op[0] in ("feedtx", "feedrx"):
-                    prev = fixed[-1] if fixed else "ok q=. rx=- cut=0 live=1 ds=- dw=. dr=- dwr=. id=1"
+                    prev = fixed[-1] if fixed else "ok q=. rx=- cut=0 live=1 ds=- dw=. dr=- dwr=. id=1 mut=-"
                     f = self._fields(prev)
-                    ln = "ok q=%s rx=%s cut=%s live=%s ds=- dw=. dr=- dwr=. id=%s" % (f["q"], f["rx"], f["cut"], f["live"], f["id"])
+                    ln = "ok q=%s rx=%s cut=%s live=%s ds=- dw=. dr=- dwr=. id=%s mut=%s" % (
+                        f["q"], f["rx"], f["cut"], f["live"], f["id"], f["mut"])
                 fixed.append(ln)
             # end to end: what the peer got is what was queued, what the transport buffered is what the peer sent
             try:
@@ -643,6 +677,7 @@ class CHECK(core.Check):
         quiet = benign and self._benign(case, "feedrx")
         logs = bool(case["wlog"]) and case["kind"] not in SERIAL
         queued = sent = recvd = taken = wtx = wrx = b""
+        msgs = []
         prev_rx = b""
         for i, (op, line) in enumerate(zip(case["ops"], out[1:])):
             if line.startswith("HARNESS-EXC"):
@@ -650,6 +685,12 @@ class CHECK(core.Check):
             f = self._fields(line)
             if op[0] == "tx":
                 queued += D.unhx(op[1])
+                msgs.append(D.unhx(op[1]))
+            if op[0] == "txagain" and msgs:
+                queued += msgs[op[1] % len(msgs)]
+            if f.get("mut", "-") != "-":
+                return ("op %d %s: message object(s) %s handed to tx() no longer read as when they were queued (the "
+                        "transport modified the caller's buffer)" % (i, op[0], f["mut"]))
             if op[0] in ("clr", "cat"):
                 taken += prev_rx
             if f.get("id") != "1":
@@ -713,7 +754,7 @@ class CHECK(core.Check):
         if not all(t[0] == "a" and int(t[1:]) >= longest for t in feed[1]):
             return 0
         fed = sum(len(op[1]) for op in before if op[0] == "feedtx")
-        msgs = sum(1 for op in before if op[0] == "tx")
+        msgs = sum(1 for op in before if op[0] in ("tx", "txagain"))
         return m if len(feed[1]) >= msgs and m >= fed + 1 else 0
 
     def nontrivial(self, case, out):
